@@ -15,6 +15,9 @@ FltV(k) == [k |-> "flt", n |-> ToString(100 + k) \o ".5"]
 BoolV(k) == [k |-> "bool", v |-> (k % 2 = 0)]
 ArrV(k) == [k |-> "arr", items |-> <<NumV(k), NumV(k + 1)>>]
 Kinds == {"select", "insert", "upsert", "update", "delete"}
+\* further value-bearing term classes the executor builds by name from a list of fresh constants: <<class, arity, criterion?>>
+CONSTANT VExt
+VTerm(c, nv) == [k |-> "vext", cls |-> c[1], vals |-> [i \in 1..c[2] |-> IF i % 3 = 1 THEN NumV(nv + i - 1) ELSE IF i % 3 = 2 THEN StrV(nv + i - 1) ELSE FltV(nv + i - 1)]]
 
 \* value-bearing calls using fresh values nv, nv+1, nv+2 ; each entry <<call, values used>>
 Pool(kind, nv) ==
@@ -32,8 +35,11 @@ Pool(kind, nv) ==
          <<[m |-> "join", item |-> "T2", how |-> "", kind |-> "on",
             crit |-> [k |-> "bin", op |-> "AND", l |-> Cmp(Fld("T1", "a"), Fld("T2", "a")), r |-> Cmp(Fld("T2", "b"), StrV(nv))], cols |-> <<>>], 1>>,
          <<[m |-> "orderby", terms |-> <<[k |-> "bin", op |-> "+", l |-> Fld("T1", "b"), r |-> NumV(nv)]>>, dir |-> ""], 1>> }
+       \cup { <<[m |-> "select", terms |-> <<VTerm(c, nv)>>], c[2]>> : c \in VExt }
+       \cup { <<[m |-> "having", crit |-> Gt(VTerm(c, nv), NumV(nv + c[2]))], c[2] + 1>> : c \in {x \in VExt : x[1] \in {"AggFilter", "AggFilter2", "CountFilter"}} }
      ELSE {})
     \cup (IF kind \in {"select", "update", "delete"} THEN
+       { <<[m |-> "where", crit |-> VTerm(c, nv)], c[2]>> : c \in {x \in VExt : x[3]} } \cup
        { <<[m |-> "where", crit |-> Cmp(Fld("T1", "b"), StrV(nv))], 1>>,
          <<[m |-> "where", crit |-> [k |-> "in", a |-> Fld("T1", "b"), items |-> <<NumV(nv), NegV(nv + 1)>>]], 2>>,
          <<[m |-> "where", crit |-> [k |-> "between", a |-> Fld("T1", "b"), lo |-> NumV(nv), hi |-> FltV(nv + 1)]], 2>>,
